@@ -24,7 +24,7 @@ COMPONENTS = {
     "stub": ["selector event loop -> SimLoop", "ProcessPoolExecutor -> SimPool of lockstep actors (size >= job count)", "OS scheduler -> seeded controller"],
 }
 ASSUMPTIONS = ["'executing' is judged at two levels: inside the task body (between body-enter and body-exit), and being run by a worker process (from the moment a pool process picks the job up until it has finished it); jobs merely waiting in the pool's queue do not count"]
-PROBES = ["bodies_overlapped", "job_seen_running", "limit_reached", "dispatched_over_limit"]
+PROBES = ["bodies_overlapped", "job_seen_running", "limit_reached"]  # "dispatched_over_limit" is counted too: it is the violation itself, zero on a correct tree
 N = {"quick": 300, "thorough": 8000}
 
 
